@@ -99,6 +99,18 @@ def couplings(th, Q2):
     return asf, asr
 
 
+def shuvaev(j, rep=None):
+    """the Shuvaev factor 2^(j+1) Γ(j+5/2)/(Γ(3/2) Γ(j+3)) the model takes as data: the package's own routine (a private
+    helper, compared with this definition by C05's oracle.fshu stream), or the definition itself if the helper was renamed"""
+    from gepard import wilson
+    f = getattr(wilson, '_fshu', None)
+    if f is not None:
+        return f(j)
+    import numpy as np
+    from scipy.special import loggamma
+    return 2 ** (j + 1) * np.exp(loggamma(2.5 + j) - loggamma(3 + j) - loggamma(1.5))
+
+
 def point_data(th, Q2, pc):
     """Everything the model needs per contour point, from the real code's own routines:
     returns dict(arr=(npts, 87) floats, fshu, c1, E (combined LO+as·NLO 3x3), raw pieces)."""
@@ -110,7 +122,7 @@ def point_data(th, Q2, pc):
     fsh, c1s, E0s, E1s = [], [], [], []
     for sh in (0, 2, 4):
         j = j0 + sh
-        fshu = wilson._fshu(j)
+        fshu = shuvaev(j)
         if th.p == 1 and pc in ('DVCS', 'DIS'):
             c1 = c1dvcs.C1(th, j, pc)[:, :3]
         elif th.p == 1 and pc == 'DVMP':
